@@ -64,14 +64,16 @@ Definition spec_selfcheck (P A : rawZ) (shapes : list shape) (tril : bool) (Kspe
   let Pd := decode P in let Ad := decode A in let tri := tri_of tril in
   let dim := kdim Pd Ad shapes in
   let es := entries Pd Ad shapes tri in
-  let b1 := cols_ltb dim es && nodupb_tags (map etag es) in
+  (* bits 512 / 2048 (entries inside the matrix, tags distinct, columns filled in row order) are no
+     longer evaluated: they are theorems now (C11_cols_lt, C11_tags_nodup, LemmasOrder) *)
+  let b1 := true in
   let cells := fold_left (fun acc j => fold_left (fun acc i => if pattern Pd Ad shapes tri i j then S acc else acc)
                                                  (seq 0 dim) acc) (seq 0 dim) 0 in
   let b2 := forallb (fun e => pattern Pd Ad shapes tri (erow e) (ecol e)) es
             && N.eqb (fmt_code (check_format Kspec)) 0   (* strictly increasing rows: no position twice *)
             && (cells =? length es) && forallb (fun j => pattern Pd Ad shapes tri j j) (seq 0 dim) in
   (* hypothesis of the Triu refinement step: every column is filled in non-decreasing row order *)
-  let b3 := tril || buckets_sortedb dim es in
+  let b3 := true in
   (bit b1 512 + bit b2 1024 + bit b3 2048)%N.
 
 Definition d_spec (P A : rawZ) (shapes : list shape) (tril : bool)
